@@ -719,6 +719,33 @@ func (d *Disk) PutDir(p string, mode fs.FileMode, uid int) {
 	}
 }
 
+// ReplaceWithDir turns an existing file into an (empty) directory of the same name, directly (at-rest damage).
+func (d *Disk) ReplaceWithDir(p string, uid int) bool {
+	ap := d.abs(p)
+	parts := strings.Split(strings.TrimPrefix(ap, "/"), "/")
+	cur := d.root
+	for i, part := range parts {
+		if !cur.dir {
+			return false
+		}
+		next := cur.entries[part]
+		if next == nil {
+			return false
+		}
+		if i == len(parts)-1 {
+			if next.dir {
+				return false
+			}
+			next.nlink--
+			cur.entries[part] = &inode{ino: d.nextIno, dir: true, mode: 0o755, uid: uid, entries: map[string]*inode{}, nlink: 2}
+			d.nextIno++
+			return true
+		}
+		cur = next
+	}
+	return false
+}
+
 // Lookup returns content and mode of a path without events (nil,false if absent).
 func (d *Disk) Lookup(p string) (data []byte, mode fs.FileMode, isDir bool, ok bool) {
 	ap := d.abs(p)
